@@ -290,6 +290,7 @@ def explore(make, bound, ctx, on_exec, max_execs=None, shard=None, name=''):
     execution itself is counted by shard 0); the union over shards is the complete enumeration.
     Returns number of executions.
     """
+    run_one(make, [])   # warm-up, discarded: the first traced execution of a process may see fewer opcode events (lazy instrumentation)
     stack = [[]]
     n = 0
     root = True
@@ -368,6 +369,15 @@ def guard(ctx, pid, make, observe, case):
     except HarnessError as e:
         if 'hung' in str(e):
             raise
+        # CPython instruments a code object for opcode events lazily: the very first traced execution in a process can see
+        # a different event stream than every later one. A genuine leak reproduces; a warm-up effect does not.
+        try:
+            determinism_guard(make, observe)
+            return True
+        except HarnessError as e2:
+            if 'hung' in str(e2):
+                raise
+            e = e2
         ctx.violation(f'{pid}/state-leaks-between-executions', f'the same schedule run twice on fresh agent objects diverged: {e}', case)
         return False
 
